@@ -47,6 +47,7 @@ type EPIn struct {
 	RevOpt    string `json:"revopt"`
 	Meta      string `json:"meta"`
 	Extra     string `json:"-"` // bytes mode: an additional extended attribute of an unusual shape in the seed envelope
+	Answer    string `json:"-"` // bytes mode: the shape of the plugin's answer ("" = a verdict for everything asked)
 }
 
 // user metadata the caller requires of the signature (EPIn.Meta "match": signed; "missing": not signed)
@@ -129,6 +130,17 @@ func epVerifier(in EPIn, withPluginMgr bool, salt uint32) (interface {
 		p := &mockPlugin{name: pluginName, version: "1.2.0", caps: []pf.Capability{pf.CapabilityTrustedIdentityVerifier},
 			verdicts:  map[pf.Capability]string{pf.CapabilityTrustedIdentityVerifier: "success"},
 			processed: []string{critAttrKey}, processedExtra: []interface{}{[]interface{}{critAttrKey}, map[string]interface{}{"k": "v"}, 1.5, nil}}
+		switch in.Answer {
+		case "nullVerdict":
+			// the capability is a key of the answer, with nothing behind it (JSON null)
+			p.verdicts, p.nilEmpty = map[pf.Capability]string{}, true
+		case "noVerdict":
+			p.verdicts = map[pf.Capability]string{}
+		case "nilEverything":
+			p.verdicts, p.nilEmpty, p.processed, p.processedExtra = map[pf.Capability]string{pf.CapabilityTrustedIdentityVerifier: "success"}, true, nil, nil
+		case "failure":
+			p.verdicts = map[pf.Capability]string{pf.CapabilityTrustedIdentityVerifier: "failure"}
+		}
 		opts.PluginManager = &mockManager{plugins: map[string]*mockPlugin{pluginName: p}}
 	}
 	return verifier.NewVerifierWithOptions(st, opts)
@@ -388,11 +400,12 @@ func runFuzzBytes() int {
 			case "envelope":
 				format := []string{"jws", "cose"}[r.Intn(2)]
 				ep := EPIn{Construct: "both", Level: in.Level, Sig: "valid", Plugin: []string{"none", "none", "installed"}[r.Intn(3)], RevOpt: "validator",
-					Extra: []string{"", "", "strKey", "intKey", "mapValue", "pluginNumber"}[r.Intn(6)]}
+					Extra:  []string{"", "", "strKey", "intKey", "mapValue", "pluginNumber"}[r.Intn(6)],
+					Answer: []string{"", "", "nullVerdict", "noVerdict", "nilEverything", "failure"}[r.Intn(6)]}
 				v, err := epVerifier(ep, true, 0)
 				must(err)
 				sig := epSignature(ep, format, c.ID)
-				if ep.Extra == "" || r.Intn(3) != 0 {
+				if (ep.Extra == "" && ep.Answer == "") || r.Intn(3) != 0 {
 					sig = mutate(r, sig) // unusual seeds are also offered as they are
 				}
 				// degenerate signature bytes (nothing, white space, the first byte of a well-formed envelope, "null") and media types that
